@@ -275,6 +275,93 @@ def part_bombs(chk, n_versions):
                 os.unlink(p)
 
 
+def _adaptive_worker(cfg):
+    """amplification: a run of adversarial nested slice packets against one list, each built for the state the implementation is really
+    in (index widths from the current length). Whatever the indices, a slice packet carrying k elements may grow the list by at most k --
+    memory stays proportional to the bytes sent."""
+    import logging
+    import time
+    from ..impl import play as iplay
+    from ..oracle import wire
+    from ..gen import types as gt
+    rng = random.Random(cfg['seed_key'])
+    st = histcheck.Setup(cfg['seed_key'], want_nested=True)
+    out = {'ops': 0, 'lists': 0, 'problem': None}
+    logging.disable(logging.CRITICAL)
+    try:
+        for dialect in cfg['dialects']:
+            h = history.History(rng, st.views, dialect)
+            h.base_player()
+            for _ in range(6):
+                h.entity_create()
+            player, ctrl = iplay.make_player(dialect, st.definitions)
+            player.play(history.stream_of(h.packets), False)
+            targets = []
+            for eid, ent in ctrl.entities.items():
+                if not (0 <= eid < 2 ** 31):
+                    continue
+                tinfo = h.world.get(eid)
+                if tinfo is None:
+                    continue
+                props = st.views[tinfo['type']]['clientProps']
+                for pi, (name, size, t, flags) in enumerate(props):
+                    pt = history.peel(t)
+                    if pt['k'] == 'array' and pt.get('size') is None and not history.zero_width_possible(pt['of']) and isinstance(ent.properties['client'].get(name), list):
+                        targets.append((eid, ent, pi, len(props), name, pt['of']))
+            for eid, ent, pi, nprops, name, et in targets[:3]:
+                out['lists'] += 1
+                sent_elems = 0
+                for step in range(cfg['steps']):
+                    lst = ent.properties['client'][name]
+                    n = len(lst)
+                    w = history.bits_required(n + 1)
+                    top = (1 << w) - 1 if w else 0
+                    i, j = rng.choice([(n, 0), (top, 0), (n, n), (min(n, top), 0), (rng.randint(0, top), rng.randint(0, top)), (0, 0), (max(n - 1, 0), 0)])
+                    k = rng.choice([1, 1, 2, 3])
+                    new = [gt.gen_value(rng, et, big_ok=False) for _ in range(k)]
+                    data = b''.join(wire.encode(et, x, 1) for x in new)
+                    bw = history.BitWriter()
+                    bw.put(1, 1)
+                    bw.put(pi, history.bits_required(nprops))
+                    bw.put(0, 1)
+                    bw.put(i, w)
+                    bw.put(j, w)
+                    body = bw.bytes() + data
+                    pkt = history.net_packet(history.DIALECTS[dialect]['nested'], struct.pack('<IbI', eid, 1, len(body)) + body)
+                    t0 = time.process_time()
+                    try:
+                        player.play(pkt, False)
+                    except Exception:
+                        pass
+                    dt = time.process_time() - t0
+                    n2 = len(ent.properties['client'][name])
+                    out['ops'] += 1
+                    sent_elems += k
+                    if n2 > n + k or dt > 5:
+                        out['problem'] = {'dialect': dialect, 'property': name, 'step': step, 'len_before': n, 'len_after': n2, 'slice': [i, j], 'elements_sent': k,
+                                          'cpu_s': round(dt, 2), 'packet': pkt.hex()[:400], 'defset': st.ds, 'setup_packets': histcheck.packets_json(h.packets)}
+                        return out
+                    if n2 > 200000:
+                        break
+    finally:
+        logging.disable(logging.NOTSET)
+        st.cleanup()
+    return out
+
+
+def part_adaptive(chk, n_sets, steps):
+    cfgs = [dict(seed_key='C15a-%s-%d' % (chk.seed, i), dialects=['wowsOld', 'wowsNew', 'wot'], steps=steps) for i in range(n_sets)]
+    for r in common.pmap(_adaptive_worker, cfgs):
+        chk.cov['evaluations'] += r['ops']
+        chk.dist('adaptive:slice_ops', r['ops'])
+        chk.dist('adaptive:lists', r['lists'])
+        if r['problem']:
+            p = r['problem']
+            chk.report('a nested slice packet carrying %d elements grows a list from %d to %d elements (slice %s, step %d of an adversarial run, %.1f s CPU): '
+                       'repeated, memory is not proportional to the input' % (p['elements_sent'], p['len_before'], p['len_after'], p['slice'], p['step'], p['cpu_s']),
+                       {'kind': 'amplification', **p})
+
+
 def _zero_width(d):
     trees = xmltree.load_dir(d)
     m = common.Driver().run([xmltree.load_request('Z', trees, brief=True)])[0]
@@ -330,12 +417,13 @@ def part_streams(chk, drv, n_sets):
 def run(chk, drv):
     quick = chk.tier == 'quick'
     chk.cov['rule'] = ('corruptions (kind x position x size; region header / ciphertext / decoded stream) of recordings and synthetic battles, each '
-                       'parse under RLIMIT_AS 3 GiB and a CPU-time limit of 20 s + 60 s/MB (wall clock 8x); battles with extreme field values; corrupted streams of generated histories through model and '
+                       'parse under RLIMIT_AS 3 GiB and a CPU-time limit of 20 s + 60 s/MB (wall clock 8x); battles with extreme field values; crafted pickle graphs; adaptive runs of adversarial slice packets (growth bound); corrupted streams of generated histories through model and '
                        'implementation; NoZeroWidth on every bundled set. Non-trivial: all; distinct by (file, mode).')
     part_zero_width(chk)
     part_campaign(chk, 40 if quick else 1500, 5 if quick else 10)
     part_extreme(chk, 16 if quick else 1000)
     part_bombs(chk, 12 if quick else 1000)
+    part_adaptive(chk, 16 if quick else 200, 40)
     part_streams(chk, drv, 12 if quick else 300)
     chk.assumptions += ['wall time and memory are measured, not proved; zlib, pickle and json costs are external']
 
